@@ -6,6 +6,11 @@
    point, +-1/+-4 ulp per coordinate, +-1/+-4 ulp of the body size, 1e-12/1e-9/1e-6 sizes beside it - and at far points
    m*10^k (k <= 12), for lattice units 1e-9..1e9, lattice poses and generic rigid motions, zero excitation and
    zero-size sources, through getB/getH/getJ/getM and magpylib.core, each call under a watchdog.
+   Degenerate-but-accepted geometries (Cuboid with 1-3 vanishing sides, Cylinder d = 0 / h = 0, CylinderSegment r1 = r2 /
+   h = 0 / phi1 = phi2, Sphere and Circle of diameter 0, Polyline segment with coinciding ends; Triangle / Tetrahedron
+   with coinciding or collinear / coplanar vertices under C17) are given through the FUNCTIONAL interface and
+   magpylib.core (the constructors reject them), each in one call with a regular row of the same class (rows
+   alternating), on the half-lattice box around the degenerate sheet / line / point, exact and +-1, +-4 ulp.
    spec/TV_Finite.tla accepts a non-finite value only at Physics!Singular points, checks the documented shapes,
    and rejects exceptions and timeouts.  It also reports which special sets were reached; a special set of
    Physics!SpecialNames that was not reached is a machinery error.
@@ -93,9 +98,11 @@ def run():
     mach = [r for r in rejects if r[3] == "MACHINERY"]
     if mach:
         raise MachineryError(f"false premise in {len(mach)} instances, e.g. {mach[0]}")
-    cover, needed = set(), set()
+    cover, needed, degen = set(), set(), set()
     for inf in infos:
-        if inf[1] == "cover":
+        if inf[1] == "degenerate":
+            degen |= {tuple(c) for c in inf[2]}
+        elif inf[1] == "cover":
             cover |= {tuple(c) for c in inf[2]}
         elif inf[1] == "needed":
             needed |= {tuple(c) for c in inf[2]}
@@ -103,6 +110,12 @@ def run():
     missing = sorted(needed - reached)
     if missing:
         raise MachineryError(f"special sets of Physics!SpecialNames not reached by the scan: {missing}")
+    # every degenerate-but-accepted geometry of the functional interface must have been observed on its own special sets
+    unreached = sorted(set(drv.FCAT) - {c[0] for c in degen})
+    if unreached:
+        raise MachineryError(f"degenerate geometries whose special sets were not reached: {unreached}")
+    rep.set("degenerate_geometries", len(drv.FCAT))
+    rep.set("degenerate_special_sets_reached", len(degen))
     rep.set("evaluations", nev)
     rep.set("point_events", npts)
     rep.set("scenes", nsc)
@@ -111,7 +124,7 @@ def run():
     rep.set("special_sets_reached", len(reached))
     rep.set("far_cells", len({c for c in cover if c[1] == "far"}))
     rep.set("cpu_time_class_of_slowest_call_per_scene", cpus)
-    rep.set("scene_kinds", {f"{a}/{b}": sum(1 for j in jobs if j["kind"] == a and j["iface"] == b) for a in ("scan", "far") for b in ("object", "core")})
+    rep.set("scene_kinds", {f"{a}/{b}": sum(1 for j in jobs if j["kind"] == a and j["iface"] == b) for a in ("scan", "far", "fscan") for b in ("object", "core", "functional") if any(j["kind"] == a and j["iface"] == b for j in jobs)})
     det = find_pts(files, [r[1] for r in rejects][:3000]) if rejects else {}
     for r in rejects:
         _, tid, clause, prop, ctx = r[:5]
@@ -143,6 +156,9 @@ def replay(path):
     magpy = import_magpylib()
     sc, _ = drv.run_job(magpy, case["job"])
     print("job", json.dumps(case["job"]))
+    if isinstance(sc, list):   # functional-interface job: scene of the degenerate rows and scene of the regular rows
+        t = case.get("pt", {}).get("t", 0)
+        sc = next((x for x in sc if x["t0"] <= t < x["t0"] + 10000), sc[0])
     print("outcome", sc["outcome"], sc["exc"], "cpu", sc["cpu"], "fields", sc["fields"])
     if "pt" in case:
         for q in sc["pts"]:
